@@ -241,6 +241,11 @@ func scenarios(thorough bool) []scenario {
 			scenario{[][]int{{300, 1500}, {150, 2100}, {40}}, 3},
 			scenario{[][]int{{300, 40}, {150, 60}, {1500, 80}}, 3},
 			scenario{[][]int{{10}, {20}, {30}, {1500}}, 2},
+			scenario{[][]int{{300, 150, 1500}, {40, 2100, 60}}, -1},
+			scenario{[][]int{{10}, {20}, {30}, {1500}}, -1},
+			scenario{[][]int{{300, 1500}, {150, 2100}, {40}}, 4},
+			scenario{[][]int{{300, 40}, {150, 60}, {1500, 80}}, 4},
+			scenario{[][]int{{1}, {2}, {3}, {4}, {1500}}, 3},
 		)
 	}
 	return s
@@ -364,10 +369,15 @@ func replay(c *fw.Ctx, raw json.RawMessage) {
 
 func init() {
 	fw.Register(&fw.Check{
-		ID:     "C08",
-		Level:  "model_checking",
-		Rule:   "stateless exploration of goroutine interleavings under a cooperative scheduler with iterative preemption bounding: 2–4 writer goroutines × 1–2 Connection.Write calls with one- and two-frame payloads on a real hap.Connection with a real secure session; scheduling points = every Lock of a sync.Mutex/RWMutex in packages hap and crypto (import rewritten to a shim through go build -overlay) and every socket Write; per schedule the captured wire must decrypt front to back with counters in arrival order (reference AEAD) and be a sequence of whole payloads. 2-writer scenarios unbounded, larger ones preemption bound 2 (thorough: unbounded / 3). Plus a free-running pass of the same bodies in a -race build. distinct_nontrivial = distinct (scenario, wire record order) outcomes — more than one per scenario means writers really collided",
-		Shards: func(string) int { return 6 },
+		ID:    "C08",
+		Level: "model_checking",
+		Rule:  "stateless exploration of goroutine interleavings under a cooperative scheduler with iterative preemption bounding: 2–4 writer goroutines × 1–2 Connection.Write calls with one- and two-frame payloads on a real hap.Connection with a real secure session; scheduling points = every Lock of a sync.Mutex/RWMutex in packages hap and crypto (import rewritten to a shim through go build -overlay) and every socket Write; per schedule the captured wire must decrypt front to back with counters in arrival order (reference AEAD) and be a sequence of whole payloads. 2-writer scenarios unbounded, larger ones preemption bound 2 (thorough: unbounded / 3). Plus a free-running pass of the same bodies in a -race build. distinct_nontrivial = distinct (scenario, wire record order) outcomes — more than one per scenario means writers really collided",
+		Shards: func(t string) int {
+			if t == "thorough" {
+				return 16
+			}
+			return 6
+		},
 		Run:    run,
 		Replay: replay,
 		Budget: func(t string) time.Duration {
